@@ -477,6 +477,45 @@ pub fn c14(tier: Tier, _seed: u64) -> Prop {
 }
 
 pub fn replay_c14(case: &Value) -> bool {
-    println!("C14 counterexamples are re-checked by re-running ./check.sh C14 quick (scenario lists are deterministic): {}", case);
-    false
+    let mut ctx = Ctx::new();
+    ensure_socket(&mut ctx);
+    match case["call"].as_str() {
+        Some("write") => {
+            // find the scenario in the deterministic lists (the replay file holds its parameters)
+            for tier in [Tier::Quick, Tier::Thorough] {
+                for s in write_scenarios(tier) {
+                    let j = case_json(&s);
+                    if j["len"] == case["len"] && j["buf"] == case["buf"] && j["arg"] == case["arg"] && j["pc"] == case["pc"] && j["ccr"] == case["ccr"] && j["text"] == case["text"] {
+                        match check_write(&mut ctx, &s) {
+                            Some(m) => {
+                                println!("FAILS: {}", m);
+                                return false;
+                            }
+                            None => {
+                                println!("message, registers, CCR, PC and memory are as the property says (console bytes are compared by the check itself through a child process)");
+                                return true;
+                            }
+                        }
+                    }
+                }
+            }
+            println!("scenario not found in the generator's lists");
+            false
+        }
+        Some("other") => {
+            let id = case["id"].as_u64().unwrap_or(0) as u32;
+            let mut c = Case::new(dom::CODE_RAM, &[0x57, 0x00]);
+            c.er = dom::background_regs();
+            c.er[0] = id;
+            c.er[1] = 0xffe900;
+            c.er[7] = 0x00ffe700;
+            let act = ctx.execute(&c);
+            println!("call number {}: {:?}", id, act);
+            matches!(act, Actual::Err(_))
+        }
+        _ => {
+            println!("set_handler / sequence counterexamples are re-checked by ./check.sh C14 quick (deterministic scenario lists): {}", case);
+            false
+        }
+    }
 }
